@@ -24,7 +24,11 @@ class CapturingClient:
         s = w.sched
         cur = s.current
         if cur is not None and not cur.is_main:
-            s.block(label='lineage.emit')
+            lat = (w.sc.get('lineage') or {}).get('emit_latency_ms', 0)
+            if lat:
+                s.sleep_ns(lat * 1_000_000, 'lineage.emit')      # the backend (HTTP transport) is not instantaneous
+            else:
+                s.block(label='lineage.emit')
             if not self.proc.alive or s.aborting:
                 return
         et = getattr(event.eventType, 'name', None) or str(event.eventType)
